@@ -18,7 +18,7 @@ RULE = ("streams of 1-8 frames. Beast: types '1' Mode-AC, '2' short, '3' long, '
         "DF/length admission; after every read the output so far is a prefix of it, contains every admissible frame whose successor start has been "
         "delivered, and equals it at the end; both Beast readers. NetSource.handle_messages with a stub pipe: everything sent + local buffers == long "
         "DF17/18 resp. DF20/21 messages handed in, in order, once. non-trivial = a cut strictly inside a frame (Beast: adjacent to / inside an escaped pair)"
-        ' Also: reader output fed to NetSource under several segmentations with frames repeated back to back (leg pipeline), TcpClient.run() itself on a scripted socket with receive timeouts between pieces (leg run_loop), stretches of 200-1500 Comm-B messages and duplicates with equal time stamps in the NetSource / RtlSdrSource leg, a libFuzzer campaign in the thorough tier.')
+        ' Also: reader output fed to NetSource under several segmentations with frames repeated back to back (leg pipeline), TcpClient.run() itself on a scripted socket with receive timeouts between pieces, reads of at most 4096 bytes and streams of up to ~20 KiB (leg run_loop), stretches of 200-12000 Comm-B messages and duplicates with equal time stamps in the NetSource / RtlSdrSource leg, a libFuzzer campaign in the thorough tier.')
 ASSUMPTIONS = ["wall-clock timestamps attached by the Beast/raw readers are ignored; Skysense timestamps are compared with the record's own field",
                "a Beast frame counts as completely received once the next <esc> and its type byte have been delivered",
                "the zmq socket is not involved: the harness owns the chunking"]
@@ -259,7 +259,7 @@ def s_net(draw):
     batches = draw(st.lists(st.lists(st.builds(one), min_size=0, max_size=6), min_size=1, max_size=8))
     # consecutive bit-identical messages (a transponder repeats itself) and long stretches of Comm-B traffic between two squitters
     dup = draw(gen.uint(0, 3)) == 0
-    bulk = draw(st.sampled_from([0, 0, 0, 0, 200, 600, 1500]))
+    bulk = draw(st.sampled_from([0] * 12 + [200, 600, 1500] * 2 + [12000]))
     return {"batches": batches, "hc": draw(gen.hexcase), "source": draw(st.sampled_from(["net", "net", "rtl"])), "dup": dup, "same_ts": draw(st.booleans()),
             "bulk": bulk, "bulk_at": draw(gen.uint(0, 7)), "ctx_bulkseed": draw(gen.ubits(32))}
 
@@ -307,6 +307,9 @@ def chk_net(case, note):
         out_a += list(zip(src.local_buffer_adsb_msg, src.local_buffer_adsb_ts))
         out_c += list(zip(src.local_buffer_commb_msg, src.local_buffer_commb_ts))
         if out_a != fed_a or out_c != fed_c:
+            if len(fed_c) + len(fed_a) > 60:
+                return "after %d batches (%d long DF17/18 and %d long DF20/21 messages handed in, the largest batch %d messages): forwarded+buffered %d ADS-B / %d Comm-B; first Comm-B kept %r, first handed in %r" % (
+                    len(batches), len(fed_a), len(fed_c), max(len(b_) for b_ in batches), len(out_a), len(out_c), out_c[:1], fed_c[:1])
             return "after batches %r: forwarded+buffered ADS-B %r / Comm-B %r, handed in %r / %r" % (batches, out_a, out_c, fed_a, fed_c)
     if src.local_buffer_adsb_msg or src.local_buffer_commb_msg:
         return "after a final batch with two ADS-B messages %r / %r remain buffered" % (src.local_buffer_adsb_msg, src.local_buffer_commb_msg)
@@ -376,6 +379,9 @@ class _Sock:
         x = self.script.pop(0)
         if x is None:
             raise zmq.error.Again()
+        if len(x) > n:   # a socket hands over at most n bytes per call; the rest stays queued
+            self.script.insert(0, x[n:])
+            x = x[:n]
         return bytes(x)
 
     def close(self):
@@ -395,15 +401,17 @@ def s_runloop(draw):
     fmt = draw(st.sampled_from(["beast", "beast", "raw", "skysense"]))
     fs = {"beast": beast_frame, "raw": raw_frame, "skysense": sky_frame}[fmt]
     return {"fmt": fmt, "frames": draw(st.lists(fs(), min_size=1, max_size=6)), "cuts": draw(st.lists(gen.uint(0, 10 ** 6), min_size=0, max_size=10)),
-            "timeouts": draw(st.lists(gen.uint(0, 12), min_size=0, max_size=5))}
+            "timeouts": draw(st.lists(gen.uint(0, 12), min_size=0, max_size=5)),
+            # a busy feed: the same frames over and over, many kilobytes, so that full-size reads arrive while a frame is unfinished
+            "repeat": draw(st.sampled_from([1, 1, 1, 1, 30, 90, 250]))}
 
 
 def chk_runloop(case, note):
     fmt = case["fmt"]
-    stream, exp, done_at = build(case)
+    stream, exp, done_at = build(dict(case, frames=list(case["frames"]) * case.get("repeat", 1)))
     want = [m for m in exp if m is not None]
     n = len(stream)
-    variants = [[], [1 + x % max(1, n - 1) for x in case["cuts"]]] + [[c] for c in range(1, n, max(1, n // 16))]
+    variants = [[], [1 + x % max(1, n - 1) for x in case["cuts"]]] + [[c] for c in range(1, n, max(1, n // (16 if n < 5000 else 5)))]
     for cuts in variants:
         bounds = sorted(set(x for x in cuts if 0 < x < n)) + [n]
         script, pos = [], 0
@@ -423,12 +431,18 @@ def chk_runloop(case, note):
             return "[%s] run() raised %s: %s (cuts %r, timeouts after pieces %r)" % (fmt, type(e).__name__, e, bounds[:-1][:6], case["timeouts"])
         got = [(m[0], round(m[1], 9)) for m in cl.got] if fmt == "skysense" else [m[0] for m in cl.got]
         if got != want:
+            if len(want) > 40:
+                k = next((i for i, (a, b) in enumerate(zip(got, want)) if a != b), min(len(got), len(want)))
+                return "[%s] run() on a stream of %d bytes (cuts %r, reads of at most 4096 bytes): %d messages handed over, %d transmitted; first difference at message %d: %r vs %r" % (
+                    fmt, n, bounds[:-1][:6], len(got), len(want), k, got[k:k + 1], want[k:k + 1])
             return "[%s] run() with cuts %r and receive timeouts after pieces %r handed %r to handle_messages, transmitted %r" % (
                 fmt, bounds[:-1][:6], case["timeouts"], got, want)
     note.evals = len(variants)
     note.cls("run-" + fmt)
     if case["timeouts"]:
         note.cls("with-timeouts")
+    if n > 4096:
+        note.cls("stream-longer-than-one-read")
     note.nt(n > 2 and bool(case["timeouts"]), key=[fmt, case["frames"], case["timeouts"]])
     return None
 
